@@ -1,0 +1,7 @@
+// +build !verif
+
+package massdb_v1
+
+// verifCacheSize is the off position of the verification hook H1 (build tag "verif"):
+// it never overrides the plotting cache size, so shipped behaviour is unchanged.
+func verifCacheSize(requiredMem uint64) (uint64, bool) { return 0, false }
